@@ -299,6 +299,36 @@ func runJSONDocs(c *runCtx) {
 		}
 		for k := open + 1; k <= len(d); k += step {
 			c.jsonCase(kc, []byte(d[:k]), uint32(k))
+			// the same cut made by the library itself (the whole document handed to the entry points under limit k)
+			if (i+k)%7 == 0 && k < len(d) {
+				c.agree(kc, []byte(d), uint32(k), false)
+			}
+		}
+		// the whole document through every entry point, also behind runs of white space of awkward lengths
+		if i%5 == 0 {
+			c.agree(kw, []byte(d), 0, i%40 == 0)
+			for _, n := range []int{63, 64, 65, 200, 3071, 3100} {
+				pd := []byte(strings.Repeat([]string{" ", "\r\n", "\t", "\n"}[(i+n)%4], n)[:n] + d)
+				if n <= 200 { // (the model's unary arithmetic makes kilobytes of padding expensive: those go through the entry points only)
+					for _, lim := range []uint32{0, uint32(len(pd) + 1)} {
+						c.jsonCase(kw, pd, lim)
+					}
+				} else if kw == "valid" {
+					if m, pan := detectAt(pd, 0); pan == nil && m != nil && (!strings.Contains(m.String(), "json") || strings.Contains(m.String(), "ndjson")) {
+						c.propfail("C08", fmt.Sprintf("valid document behind %d bytes of white space not reported as JSON when examined in full: %s", n, m.String()))
+					}
+				}
+				c.agree(kw+"-padded", pd, 0, false)
+				c.agree(kw+"-padded", pd, 3072, false)
+			}
+		}
+		// malformed in whole mode: no entry point may read it as truncated
+		if kw == "valid" && i%4 == 0 && len(d) > 3 {
+			bad := []byte(d[:len(d)-1-i%3])
+			if !stdjson.Valid(bad) {
+				c.jsonCase("doc-mut", bad, 0)
+				c.agree("doc-mut", bad, 0, i%32 == 0)
+			}
 		}
 		for k := 1; k <= open; k++ {
 			c.jsonCase("doc-cut", []byte(d[:k]), uint32(k))
